@@ -116,7 +116,8 @@ Delivered(t) == jobs[t] # "none"
 (***************************************************************************)
 (* StoreCredential (store.go) as called by vcCallback                      *)
 (***************************************************************************)
-CredOutcome(c, f) ==
+\* v: the validator is applied before storing (ValidateOnStore)
+CredOutcomeV(c, f, v) ==
     LET x == C[c] IN
     IF x.fmt = "jwt" THEN                       \* find(id) never finds a JWT document; signature verified; written as a JSON string
         (IF x.iss \notin keys THEN "nokey" ELSE IF x.sig # "ok" THEN "badsig" ELSE IF f THEN "fault" ELSE "blind")
@@ -126,9 +127,10 @@ CredOutcome(c, f) ==
     ELSE IF x.ctx = "denied" THEN "ctxdenied"                                \* context not on the remoteallowlist
     ELSE IF x.ctx = "flaky" /\ ~ctxUp THEN "ctxdown"                         \* loading remote context failed
     ELSE IF x.sig # "ok" THEN "badsig"
-    ELSE IF ValidateOnStore /\ ~WF(c) THEN "malformed"
+    ELSE IF v /\ ~WF(c) THEN "malformed"
     ELSE IF f THEN "fault"
     ELSE "stored"
+CredOutcome(c, f) == CredOutcomeV(c, f, ValidateOnStore)
 
 (***************************************************************************)
 (* RegisterRevocation (verifier.go) as called by jsonLDRevocationCallback  *)
@@ -146,8 +148,9 @@ Writes(t) == Outcome(t, FALSE) \in {"stored", "blind", "registered"}
 
 \* ambassador.handleError + the notifier: what becomes of the job
 OkClasses == {"stored", "dup", "blind", "ctxdenied", "registered"}
-RetryClasses == {"ctxdown"} \cup (IF TransientRetried THEN {"fault"} ELSE {}) \cup (IF UnknownKeyRetried THEN {"nokey"} ELSE {})
-JobAfter(o) == IF o \in OkClasses THEN "done" ELSE IF o \in RetryClasses THEN "retry" ELSE "dead"
+RetryClassesV(tr, uk) == {"ctxdown"} \cup (IF tr THEN {"fault"} ELSE {}) \cup (IF uk THEN {"nokey"} ELSE {})
+JobAfterV(o, tr, uk) == IF o \in OkClasses THEN "done" ELSE IF o \in RetryClassesV(tr, uk) THEN "retry" ELSE "dead"
+JobAfter(o) == JobAfterV(o, TransientRetried, UnknownKeyRetried)
 TransientClasses == {"ctxdown", "fault", "nokey"}
 
 Apply(t, o) ==
@@ -270,17 +273,17 @@ NodeOf(p) == CommOwner(p, 0)
 CurrentKeys(kc) == CASE kc = "one" -> {"k1"} [] kc = "two" -> {"k1", "k2"} [] kc = "rotated" -> {"k2"} [] OTHER -> {}
 
 PubIssue(s, public) ==
-    /\ Mode = "pub" /\ Len(pubs) < 2
+    /\ Mode = "pub" /\ (pubs = <<>> \/ (Len(pubs) = 1 /\ pubs[1].ok))
     /\ LET parts == IF public THEN <<>> ELSE <<NodeOf("I"), NodeOf(s)>>
            ok == public \/ (NodeOf("I") # "" /\ NodeOf(s) # "")
            e == [kind |-> "vc", subject |-> s, public |-> public, ok |-> ok, participants |-> parts, keys |-> CurrentKeys(pcfg.keys)]
-       IN /\ pubs' = IF ok THEN Append(pubs, e) ELSE pubs
+       IN /\ pubs' = Append(pubs, e)                     \* failed attempts are recorded, too (ok = FALSE)
           /\ last' = [a |-> "Issue", t |-> s, res |-> IF ok THEN "published" ELSE "error"]
           /\ Log([a |-> "Issue", s |-> s, public |-> public, exp |-> e])
     /\ UNCHANGED <<stored, blind, revs, trust, keys, ctxUp, jobs, why, replay, restarts, reprocs, faults, tops, pcfg>>
 
 PubRevoke ==
-    /\ Mode = "pub" /\ Len(pubs) >= 1 /\ pubs[Len(pubs)].kind = "vc"
+    /\ Mode = "pub" /\ Len(pubs) = 1 /\ pubs[1].kind = "vc" /\ pubs[1].ok
     /\ LET e == [kind |-> "rev", subject |-> pubs[Len(pubs)].subject, public |-> TRUE, ok |-> TRUE, participants |-> <<>>, keys |-> CurrentKeys(pcfg.keys)]
        IN /\ pubs' = Append(pubs, e)
           /\ last' = [a |-> "Revoke", t |-> "", res |-> "published"]
@@ -371,13 +374,13 @@ EventuallyQuiet == <>[](\A t \in Tx : jobs[t] \in {"done", "dead"})
 (* Properties (mode "pub")                                                 *)
 (***************************************************************************)
 \* a public transaction names no participant; a private one names exactly the nodes of issuer and subject
-PubShape == \A i \in 1..Len(pubs) :
+PubShape == \A i \in {n \in 1..Len(pubs) : pubs[n].ok} :
     /\ pubs[i].public => pubs[i].participants = <<>>
     /\ ~pubs[i].public => (Len(pubs[i].participants) = 2 /\ \A j \in 1..2 : pubs[i].participants[j] \in Parties /\ CommOf(pubs[i].participants[j]).k = "own")
     /\ pubs[i].kind = "rev" => pubs[i].public
     /\ pubs[i].keys # {}
 
-Terminal == IF Mode = "pub" THEN Len(pubs) = 2 \/ (Len(hist) >= 2 /\ last.res = "error")
+Terminal == IF Mode = "pub" THEN Len(pubs) = 2 \/ (Len(pubs) = 1 /\ ~pubs[1].ok)
             ELSE /\ replay = {} /\ \A t \in Tx : jobs[t] \in {"done", "dead"}
                  /\ restarts = MaxRestart
 =============================================================================
